@@ -3,6 +3,7 @@ package main
 // Translation of clause expressions to SMT-LIB terms.
 
 import (
+	"os"
 	"fmt"
 	"go/types"
 	"strings"
@@ -629,7 +630,9 @@ func (e *Env) call(x *Expr) TTerm {
 		if len(x.Args) == 2 && x.Args[1].Op == "str" {
 			id, ok := e.g.typeIDByName(x.Args[1].Name)
 			if !ok {
-				return e.fail("isType: unknown type %q", x.Args[1].Name)
+				// a type that the program does not declare (any more) has no values: the test is false
+				e.g.noteMissingType(x.Args[1].Name)
+				return B("false")
 			}
 			if a[0].Sort == "Val" {
 				return B(fmt.Sprintf("(= (val.type %s) %d)", a[0].S, id))
@@ -1289,4 +1292,15 @@ func (g *Gen) LemmaGens(prop string) []*FuncGen {
 		out = append(out, fg)
 	}
 	return out
+}
+
+var missingTypes = map[string]bool{}
+
+// noteMissingType: a contract names a type that /repo does not declare; isType(x, T) is then false for every x
+// (reported once on stderr so that a stale contract does not go unnoticed)
+func (g *Gen) noteMissingType(name string) {
+	if !missingTypes[name] {
+		missingTypes[name] = true
+		fmt.Fprintf(os.Stderr, "NOTE contracts name the type %s, which /repo does not declare: isType(_, %q) is false\n", name, name)
+	}
 }
